@@ -546,6 +546,12 @@ class SymNP(types.ModuleType):
     def divide(self, a, b, *r, **k):
         if _has_sym(a) or _has_sym(b):
             return _map(lambda p, q: Sym(lift(p)) / q, a, b)
+        if Mode.symbolic and not r and not k:
+            aa, bb = _np.asarray(a), _np.asarray(b)
+            if aa.dtype.kind in "iu" and bb.dtype.kind in "iu" and _np.all(bb != 0):
+                # exact rationals instead of rounded doubles (ratios of voxel counts): keeps the real-arithmetic VCs exact
+                from fractions import Fraction
+                return _map(lambda p, q: Fraction(int(p), int(q)), aa, bb)
         return _np.divide(a, b, *r, **k)
 
     def multiply(self, a, b, *r, **k):
